@@ -18,8 +18,8 @@ import (
 
 type upProc struct {
 	Name       string   `json:"name"`
-	Tag        string   `json:"tag"`  // travels in the script: identifies the argument version
-	Exe        string   `json:"exe"`  // "" = shell command; else entrypoint[0]
+	Tag        string   `json:"tag"` // travels in the script: identifies the argument version
+	Exe        string   `json:"exe"` // "" = shell command; else entrypoint[0]
 	Env        []string `json:"env,omitempty"`
 	WorkingDir string   `json:"working_dir,omitempty"`
 	Restart    string   `json:"restart,omitempty"`
@@ -504,7 +504,7 @@ func op0(p *upProc) *upProc {
 func init() {
 	fw.Register(&fw.Property{
 		ID: "C14", Level: "exploration",
-		Rule: "pairs and chains (1-3 successive updates) of generated projects of 2-5 long-running processes; P' differs from P by removed / added processes and by mutations of one or several launch-relevant fields (arguments, environment value / new entry, working dir, restart policy, back-off, probe, stop signal, dependencies, executable) - a quarter of the cases mutate exactly one field (field sensitivity) - or not at all; both projects go through the real loader; oracle: returned status map, configured set, stored configuration, and who was signalled / launched with which arguments, executable, directory and environment; distinct = mutation list",
+		Rule:        "pairs and chains (1-3 successive updates) of generated projects of 2-5 long-running processes; P' differs from P by removed / added processes and by mutations of one or several launch-relevant fields (arguments, environment value / new entry, working dir, restart policy, back-off, probe, stop signal, dependencies, executable) - a quarter of the cases mutate exactly one field (field sensitivity) - or not at all; both projects go through the real loader; oracle: returned status map, configured set, stored configuration, and who was signalled / launched with which arguments, executable, directory and environment; distinct = mutation list",
 		Assumptions: []string{"'changed' is decided by the mutator on the launch-relevant fields of the statement, independent of ProcessConfig.Compare", "description-only changes are not generated (the statement is silent)"},
 		Gen: func(seed int64, tier string) []fw.Case {
 			var cs []fw.Case
